@@ -285,10 +285,19 @@ func hbCase(r *rand.Rand, o *hout.Out) {
 		}
 	}
 	resent := after[len(outs):]
+	maxFirst := 0
+	for q := range first {
+		if n, _ := strconv.Atoi(q); n > maxFirst {
+			maxFirst = n
+		}
+	}
 	var gotSeqs, wantSeqs []int
 	for _, m := range resent {
 		q := field(m.raw, "34")
 		n, _ := strconv.Atoi(q)
+		if n > maxFirst {
+			continue // a new message (a heartbeat whose timer fired meanwhile), not a retransmission
+		}
 		gotSeqs = append(gotSeqs, n)
 		if orig, ok := first[q]; ok && !bytes.Equal(orig, m.raw) {
 			o.Fail("C10", "retransmission-differs", fmt.Sprintf("%s: seq %s first sent as %q, retransmitted as %q", desc, q, orig, m.raw))
